@@ -35,6 +35,8 @@ def jobs(tier):
                              note=f"{t}: fill_in_let with overrides on constant subset mask={mask}; oracle: no Constant left in any position, "
                                   "impl_meaning(out, {}) == ref_meaning(program, overrides), declarations/macros/native gates/usepulses preserved"))
         # float override of the first constant
+        if t == "t_slice_let":
+            continue        # its first constant is an alias bound: every float override invalidates the alias (vacuous)
         pure_numeric = t in ("t_let_arg", "t_float")      # the first constant is never an index/bound/count
         for fo in (((0, 2) if pure_numeric else (2,)) if q else ((0, 1, 2, 3, 4, 5) if pure_numeric else (2, 3, 8, 12))):
             out.extend(tjobs(f"{H}:c05_letfill", t, tier, fixed={"pulses": False, "mask": 1, "fo": fo, "o0": 0, "o1": 0}, functions=FUNCS, timeout=400 if q else 2400,
